@@ -257,6 +257,21 @@ impl Value {
 
     pub fn checked_sub(&self, rhs_value: &Value) -> Result<Value, JsError> {
         let coin = self.coin.checked_sub(&rhs_value.coin)?;
+        // like the coin, every asset quantity is subtracted exactly or the call fails
+        // (use `clamped_sub` for the saturating variant)
+        if let Some(rhs_ma) = &rhs_value.multiasset {
+            let empty = MultiAsset::new();
+            let lhs_ma = self.multiasset.as_ref().unwrap_or(&empty);
+            for (policy, assets) in &rhs_ma.0 {
+                for (asset_name, amount) in &assets.0 {
+                    let have = lhs_ma
+                        .get(policy)
+                        .and_then(|a| a.get(asset_name))
+                        .unwrap_or(BigNum::zero());
+                    have.checked_sub(amount)?;
+                }
+            }
+        }
         let multiasset = match (&self.multiasset, &rhs_value.multiasset) {
             (Some(lhs_ma), Some(rhs_ma)) => match lhs_ma.sub(rhs_ma).len() {
                 0 => None,
